@@ -1476,7 +1476,8 @@ enhance(vbi_decoder *vbi,
 	es.active_column = 0;
 	es.active_row = 0;
 
-	es.acp = &pg->text[(inv_row + 0) * EXT_COLUMNS];
+	/* Rows >= ROWS are never written, see enhance_flush(). */
+	es.acp = &pg->text[((inv_row < ROWS) ? inv_row : 0) * EXT_COLUMNS];
 
 	offset_column = 0;
 	offset_row = 0;
@@ -1601,7 +1602,8 @@ enhance(vbi_decoder *vbi,
 				es.active_row = row;
 				es.active_column = column;
 
-				es.acp = &pg->text[(es.inv_row + es.active_row) * EXT_COLUMNS];
+				if (es.inv_row + es.active_row < ROWS)
+					es.acp = &pg->text[(es.inv_row + es.active_row) * EXT_COLUMNS];
 
 				break;
 
